@@ -44,10 +44,16 @@ OPS = [
     ("compound", re.compile(r"(\+=|-=)"), {"+=": ["-="], "-=": ["+="]}),
     ("some", re.compile(r"\b(is_some|is_none|is_ok|is_err|is_empty)\(\)"), None),
     ("minmax", re.compile(r"\b(min|max|first|last|saturating_sub|saturating_add|checked_add|checked_sub)\("), None),
+    # second batch
+    ("int", re.compile(r"(?<![\w\.\[#])(\d+)(?![\w\.\]])"), "bump"),
+    ("neg", re.compile(r"(?<![\w\)=<>!])(!)(?=[a-z_\(]\w*)"), {"!": [""]}),
+    ("rev", re.compile(r"(\.rev\(\))"), {".rev()": [""]}),
+    ("trim", re.compile(r"(\.trim\(\)|\.trim_start\(\)|\.trim_end\(\))"), {".trim()": [""], ".trim_start()": [""], ".trim_end()": [""]}),
+    ("upper", re.compile(r"(\.to_ascii_uppercase\(\)|\.to_uppercase\(\))"), {".to_ascii_uppercase()": [""], ".to_uppercase()": [""]}),
 ]
 SWAP = {"is_some": "is_none", "is_none": "is_some", "is_ok": "is_err", "is_err": "is_ok",
         "min": "max", "max": "min", "first": "last", "last": "first"}
-DELETABLE = re.compile(r"^\s*(self\.[\w\.]+(\(.*\))?\s*(=|\+=|-=)[^=].*;|self\.[\w\.]+\(.*\);|[a-z_][\w\.]*\.(clear|push|pop|insert|remove|truncate|push_str|extend|reset|flush)\w*\(.*\);)\s*$")
+DELETABLE = re.compile(r"^\s*(self\.[\w\.]+(\(.*\))?\s*(=|\+=|-=)[^=].*;|self\.[\w\.\(\)]+\(.*\)\??;|[a-z_][\w\.]*\.(clear|push|pop|insert|remove|truncate|push_str|extend|reset|flush|set|gc|retain|send)\w*\(.*\)\??;|[a-z_]\w*(\.\w+)* (=|\+=|-=) [^=].*;)\s*$")
 
 
 def source_files():
@@ -112,7 +118,11 @@ def gen():
             for (name, rx, table) in OPS:
                 for m in rx.finditer(masked):
                     tok = m.group(1)
-                    if table is None:
+                    if table == "bump":
+                        if name == "int" and (int(tok) in (0, 1) or "const " in l and "=" not in l):
+                            continue
+                        reps = [str(int(tok) + 1)] if len(tok) < 6 else []
+                    elif table is None:
                         if tok not in SWAP:
                             continue
                         reps = [SWAP[tok]]
